@@ -62,6 +62,8 @@ PROPS["C13"] = {
          "bounds": {"initial replicas": "{1,2,3}", "scale target": "{-1,0,1,2,3,9,10,11}", "requests": 1, "templates": "command and description reference PC_REPLICA_NUM and a global variable"}},
         {"pkg": "app", "name": "VerifC13_Scale2", "thorough": {"d": 0, "wall": 3000}, "native": False,
          "bounds": {"requests": 2}},
+        {"pkg": "app", "name": "VerifC13_Scale100", "quick": {"d": 0}, "thorough": {"d": 1}, "native": False,
+         "bounds": {"initial replicas": "{1,2,3}", "scale targets": "two successive requests from {99,100,101} (name width 2 -> 3 and back)"}},
     ],
     "stubs": ["math.Log10 evaluated natively on the concrete replica count"],
     "assumptions": [],
@@ -312,7 +314,7 @@ _lv("C10", "ValidateAndSetDefaults for full-range ints and HTTP target strings; 
 _lv("C12", 'runningProcessesReverseDependencies for every dependency relation over 3 names x running subset x map order; real ordered ShutDownProject on chain / fan-in / fan-out / diamond with every subset already completed and every termination latency mix: no stop signal while a dependent that was running at shutdown is alive, shutdown completes, unrelated processes are stopped concurrently (witness); a dependent still Pending on process_completed when the shutdown begins does not block it.',
     'Stub Commander; N<=4.')
 
-_lv("C13", 'CalculateReplicaName for every count 1..128 (1..1100 thorough) and symbolic i<j<n; real ScaleProcess from 1-3 replicas (each running or already completed) to {-1,0,1,2,3,9,10,11} (two successive requests thorough): listed replicas, their state/info/log and rendered configuration equal a fresh load with replicas: n; survivors not restarted, removed terminated, added launched once, bystander untouched, n<1/unknown name rejected.',
+_lv("C13", 'CalculateReplicaName for every count 1..128 (1..1100 thorough) and symbolic i<j<n; real ScaleProcess from 1-3 replicas (each running or already completed) to {-1,0,1,2,3,9,10,11} (two successive requests thorough), and two successive requests from {99,100,101} across the 99/100 name-width boundary: listed replicas, their state/info/log and rendered configuration equal a fresh load with replicas: n; survivors not restarted, removed terminated, added launched once, bystander untouched, n<1/unknown name rejected.',
     'math.Log10 natively on the concrete count; loader pipeline executed for the reference; text/template natively; JSON snapshot intrinsic.')
 
 _lv("C14", 'ProcessConfig.Compare on two configurations with symbolic launch-relevant settings (executable/args derived by the real AssignProcessExecutableAndArgs): equal implies agreement on every launch-relevant field. Real UpdateProject: process a changed in one of 11 settings or unchanged, b kept or removed, c added or not, k untouched: configured set, status map, instances kept / relaunched once with the new configuration / terminated / launched.',
